@@ -513,10 +513,12 @@ def reunite_scenarios(quick):
         for s1 in itertools.permutations(evs, n):
             for grouping in (("singles",) if n == 1 else ("singles", "array", "mixed") if n == 3 else ("singles", "array")):
                 for fin in itertools.product((0, 1), repeat=n):  # 1 = this remote job finished before the scheduler came back
-                    for m in (1, 2, 3):
-                        for s2 in itertools.combinations(evs, m):
-                            for g2 in (("singles",) if quick else ("singles", "array")):
-                                out.append((s1, grouping, fin, s2, g2))
+                    s2s = [s2 for m in (1, 2, 3) for s2 in itertools.combinations(evs, m)]
+                    # twins: two jobs of the same evaluation submitted in the second session (cache=False twins, or two parents)
+                    s2s += [(s1[0], s1[0])] + ([(s1[0], s1[-1], s1[0])] if n > 1 else [])
+                    for s2 in s2s:
+                        for g2 in (("singles",) if quick else ("singles", "array")):
+                            out.append((s1, grouping, fin, s2, g2))
     return out
 
 
@@ -674,7 +676,7 @@ def run(ctx):
         f"{'2 orders' if ctx.quick else 'every order'}, index supplied through each of the 3 environment variables; every attempt history (ok/fail) of length <= {L} "
         "x cache flag x single/array element against the reference model of the scratch files (stale output/error never read, body runs iff no reusable "
         f"output); the same with a File-valued output that is rewritten between attempts (a reusable output must still be valid). names: {len(PREFIXES)} prefixes x 9 hashes x array flag. reunite: every ordered subset of 3 evaluations x grouping into single/array "
-        f"submissions x every subset finished before the second session x every subset resubmitted, x {len(prefixes)} job-name prefixes, with unrelated "
+        f"submissions x every subset finished before the second session x every subset resubmitted (plus twin jobs of one evaluation), x {len(prefixes)} job-name prefixes, with unrelated "
         "jobs on the queue; real executor code against a fake Batch API whose containers run the real oneshot entry point",
         "samples": [repr(single_items[0][2:]), repr(scen[0])],
     }, "assumptions": ["results and exceptions of the alphabet round-trip through pickle (an exception that cannot be pickled is compared with the documented "
